@@ -52,9 +52,21 @@ def preimport():
             pass
 
 
+BASE_STATE = {}
+
+
+def take_base_state():
+    """Process-wide / module-level state of this (pristine) process."""
+    from . import globalstate
+
+    BASE_STATE.clear()
+    BASE_STATE.update(globalstate.snapshot())
+
+
 def _worker_init():
     quiet()
     preimport()
+    take_base_state()
     faulthandler.enable()
     # compiled chmpy kernels print "ZeroDivisionError: float division" through
     # PyErr_Print for atoms far from any density; tracebacks of harness errors
@@ -126,6 +138,15 @@ def run_summary(stratum, seed, index, want_fp):
     if r.violation is not None:
         out["violation"] = {"stratum": stratum, "index": index, "schedule": r.schedule,
                             "violation": r.violation.to_json()}  # fmt: skip
+    # did this history touch process-wide or module-level state? then the
+    # in-process reference may have been wrong in the same way: re-judge
+    out["state_changed"] = []
+    if BASE_STATE:
+        from . import globalstate
+
+        out["state_changed"] = globalstate.diff(BASE_STATE, globalstate.snapshot())[:12]
+        if out["state_changed"] and r.violation is None and out["ref"] != "isolated":
+            out["escalate"] = dict(r.schedule, ref="isolated")
     return out
 
 
@@ -167,6 +188,22 @@ def run_chunk(task):
             out["samples"].append(r["sample"])
         if r["violation"]:
             out["violations"].append(r["violation"])
+        for k in r.get("state_changed", []):
+            out["stats"]["state_changed:" + k] += 1
+        if r.get("state_changed"):
+            out["stats"]["runs_that_changed_process_or_module_state"] += 1
+        if r.get("escalate"):
+            from .engine import _execute_child
+
+            out["stats"]["runs_rejudged_with_isolated_reference"] += 1
+            try:
+                res = forked(_execute_child, r["escalate"], False, timeout=RUN_TIMEOUT)
+            except ChildFailure as e:
+                out["harness"].append([stratum, index, "re-judging with the isolated reference failed: " + str(e)])
+                continue
+            if res.get("violation"):
+                out["violations"].append({"stratum": stratum, "index": index, "schedule": r["escalate"],
+                                          "violation": res["violation"]})  # fmt: skip
     return out
 
 
@@ -530,6 +567,10 @@ def regression_items():
 def check_main(tier, seed, args):
     quiet()
     preimport()
+    take_base_state()
+    from .simfs import sweep_stale
+
+    sweep_stale()
     t0 = time.time()
     from . import gen, ops
     from .engine import execute
@@ -722,6 +763,9 @@ def write_evidence(tier, seed, batch, wall, workers, n_viol, klines, det_info, s
             "runs_with_injected_fault_or_raising_op": batch.faulted_runs,
             "runs_fault_free": batch.runs - batch.faulted_runs,
             "runs_with_isolated_reference": batch.isolated_ref_runs,
+            "runs_that_changed_process_or_module_state": s["runs_that_changed_process_or_module_state"],
+            "runs_rejudged_with_isolated_reference": s["runs_rejudged_with_isolated_reference"],
+            "process_or_module_state_changed": pick("state_changed:"),
             "process_isolation": "every history runs in a child forked from a worker that never executes library code; in runs_with_isolated_reference every reference query is answered by its own pristine grandchild process",
             "history_length_histogram_excluding_audit": {str(k): v for k, v in sorted(batch.lengths.items())},
             "runs_by_source_class": dict(sorted(batch.sources.items())),
